@@ -252,13 +252,9 @@ def scribble(res) -> int:
         return n
     if isinstance(res, pd.DataFrame):
         for c in range(res.shape[1]):
-            # no reference to the column may be held while writing: under copy-on-write a second reference makes pandas copy the
-            # block first, which would hide a result that shares the caller's buffer
-            cdt = res.dtypes.iloc[c]
+            col = res.iloc[:, c]
             try:
-                if len(res) and isinstance(cdt, np.dtype) and cdt.kind in "fiu":
-                    # a single cell first (pandas writes it into the existing block), then the whole column (may swap the block)
-                    res.iloc[0, c] = 29
+                if len(res) and isinstance(col.dtype, np.dtype) and col.dtype.kind in "fiu":
                     res.iloc[:, c] = 31
                     n += 1
             except Exception:  # noqa
